@@ -217,7 +217,13 @@ impl<F: FixedChannelRegion> RegionHandler for FixedChannelPlan<F> {
                 // Alternatively, we will ask JoinChannel logic to determine a channel from the
                 // subband that  the join succeeded on.
                 } else if let Some(channel) = self.join_channels.first_data_channel(rng) {
-                    (datarate, channel)
+                    // a 500 kHz data rate can only use the 500 kHz channel of that subband
+                    let bandwidth = F::datarates()[datarate as usize].as_ref().unwrap().bandwidth;
+                    if bandwidth == Bandwidth::_500KHz {
+                        (datarate, 64 + channel / 8)
+                    } else {
+                        (datarate, channel)
+                    }
                 } else {
                     // For the data frame, the datarate impacts which channel sets we can choose
                     // from. If the datarate bandwidth is 500 kHz, we must use
